@@ -13,6 +13,10 @@ Correspondence (harness/cmd/enc drive  vs  m_enc), line by line on the same gene
         nonce/ciphertext split (computed with the standard library and an independent SHA3-256)
   xkey  real AES-GCM, settings pairs from a colliding pool, against the model with an ideal AEAD
   ns    every Filespace method: the call the underlying filespace receives, and that its answer is passed on
+  hist  histories with SEVERAL OPEN HANDLES on the real encryptfs + real AES-GCM (readers on different files /
+        filespaces opened before earlier ones are drained, overwrites and stream writers in between, chunks of
+        several writers interleaved, any close order; sizes 0 … 64 KiB+1) against Model/EncHandles.lean, where a
+        reader is a snapshot of its file taken at open; every answer (digest of the bytes delivered) is compared
 Spec vs implementation (harness/cmd/enc oracle): the property's clauses on the real code alone (see oracle.go).
 
 Known finding KF-C05-1 (key material is a plain concatenation) is replayed on every run; any wrong-key
@@ -57,8 +61,8 @@ def _strip(line):
     return line.split(" | ", 1)[0].rstrip("\n")
 
 
-def _drive_sharded(ctx, go, ops_lines, tag, shards):
-    """run `enc drive` over contiguous shards in parallel; returns the result lines in order"""
+def _drive_sharded(ctx, go, ops_lines, tag, shards, args=("drive",), who="implementation"):
+    """run `enc drive` (or the model driver) over contiguous shards in parallel; returns the result lines in order"""
     n = len(ops_lines)
     if n == 0:
         return []
@@ -75,7 +79,7 @@ def _drive_sharded(ctx, go, ops_lines, tag, shards):
         jobs.append((p_in, p_out, len(part)))
 
     def one(job):
-        rc, err = ctx.run_lines(go, ["drive"], job[0], job[1], timeout=3000)
+        rc, err = ctx.run_lines(go, list(args), job[0], job[1], timeout=3000)
         return rc, err
 
     with concurrent.futures.ThreadPoolExecutor(max_workers=len(jobs)) as ex:
@@ -83,15 +87,17 @@ def _drive_sharded(ctx, go, ops_lines, tag, shards):
     out = []
     for (p_in, p_out, cnt), (rc, err) in zip(jobs, results):
         if rc != 0:
-            ctx.fatal("implementation driver failed rc=%d %s" % (rc, err[-500:]))
+            ctx.fatal("%s driver failed rc=%d %s" % (who, rc, err[-500:]))
         lines = [l.rstrip("\n") for l in open(p_out)]
         if len(lines) != cnt:
-            ctx.fatal("implementation driver answered %d lines for %d ops" % (len(lines), cnt))
+            ctx.fatal("%s driver answered %d lines for %d ops" % (who, len(lines), cnt))
         out += lines
     return out
 
 
-def _model(ctx, model, ops_lines, tag):
+def _model(ctx, model, ops_lines, tag, shards=1):
+    if shards > 1:      # every line is a self-contained case: the model can be run over shards as well
+        return _drive_sharded(ctx, model, ops_lines, tag + ".m", shards, args=(), who="model")
     p_in, p_out = ctx.path(tag + ".all.ops"), ctx.path(tag + ".model")
     with open(p_in, "w") as h:
         h.writelines(l + "\n" for l in ops_lines)
@@ -142,6 +148,35 @@ def _early_eof(parts):
     return False
 
 
+def _hist_verdict(op, impl, model):
+    """a `hist` line: which differing answer contradicts the property by itself?  The model's answers are the
+    property here (content at open time / error for another secret or a missing file); only HOW MANY bytes a
+    single Read delivers and when it reports EOF is left open by io.Reader, so a difference confined to `rd`
+    answers that are data on both sides is not a counterexample by itself (the oracle judges the bytes)."""
+    if not (impl.startswith("h=") and model.startswith("h=")):
+        return False, ""
+    steps, ai, am = op.split(" ")[4].split(","), impl[2:].split(","), model[2:].split(",")
+    for st, a, b in zip(steps, ai, am):
+        if a == b:
+            continue
+        kind = st.split(":")[0]
+        a_data, b_data = "/" in a, "/" in b
+        if kind == "rd" and a_data and b_data:
+            continue
+        if kind in ("rd", "ra") and a_data and b_data:
+            return True, ("step %s: the reader delivered %s, the file held %s when the reader was opened (len/fnv32)"
+                          % (st, a, b))
+        if kind in ("rd", "ra", "rf") and b_data:
+            return True, "step %s: answered %s where the content %s must be read back" % (st, a, b)
+        if kind in ("rf", "or") and b == "err" and a != "err":
+            return True, "step %s: answered %s where another secret / a missing file must be refused" % (st, a)
+        if kind == "rf":
+            return True, "step %s: ReadFile answered %s, the file holds %s" % (st, a, b)
+        if b == "ok":
+            return True, "step %s: answered %s instead of ok" % (st, a)
+    return False, ""
+
+
 def _classify(op, impl, model):
     """is this implementation/model difference by itself a counterexample to the property?"""
     verb = op.split(" ", 1)[0]
@@ -173,6 +208,8 @@ def _classify(op, impl, model):
         if fm.get("r") == "err" and fi.get("r") == "ok":
             return True, "data was returned where the framing must refuse"
         return False, ""
+    if verb == "hist":
+        return _hist_verdict(op, impl, _strip(model))
     if verb == "aes":
         f = op.split(" ")
         if fm.get("r") == "err" and fi.get("r") == "ok":
@@ -204,7 +241,7 @@ def _oracle(ctx, go, tier):
             ctx.evaluations += int(v)
         elif k != "fails":
             ctx.histogram["oracle:" + k] += int(v)
-    ctx.extra["oracle_summary"] = summary[:4000]
+    ctx.extra["oracle_summary"] = summary[:6000]
     ctx.extra["oracle_notes"] = notes
     return fails
 
@@ -242,7 +279,13 @@ def run(ctx):
                 "stored file for toy/ext:7 x both read paths, every truncation and position for the real raw/tagged "
                 "cipher, every Filespace method; then %d random ops from VERIF_SEED (55%% fs: cipher spec, base, two "
                 "settings from a colliding pool, write/read path, chunking, read buffer sizes, entropy incl. too "
-                "short, tamper none/trunc/flip/set; 25%% aes; 10%% xkey; 10%% ns). non-trivial = the write succeeded "
+                "short, tamper none/trunc/flip/set; 25%% aes; 10%% xkey; 10%% ns — shares of the 20/22 that are not hist; 2/22 hist: "
+                "1-3 filespaces over one base, 2-4 files, 6-23 steps among open reader / Read / read all / close / "
+                "WriteFile / ReadFile / open writer / Write / close writer with up to 5 readers and 3 writers open at "
+                "once, sizes from {0, 1-40, 15-17, ~512, ~1 KiB, 1024, ~4 KiB, 4096, 64 KiB+1, <3000, <9000}; before "
+                "them the hist sweep: every ordered pair of sizes {0,1,16,600,1024,4096,65537} x both ciphers x four "
+                "schedules (second reader on another file opened before the first is read; through a filespace with "
+                "another secret; overwrite between two readers of one file; two writers alternating)). non-trivial = the write succeeded "
                 "(fs) / any aes, xkey, ns line; distinct = distinct op lines.  Oracle: see oracle_summary."
                 % n_rand)
     # ---------------------------------------------------------------- host id (model: hostIDActual = "")
@@ -269,7 +312,7 @@ def run(ctx):
     ctx.extra["sweep_ops"] = len(ops) - n_corpus - n_rand      # systematic part of the generator
     ctx.extra["random_ops"] = n_rand
     impl = _drive_sharded(ctx, go, ops, "corr", shards)
-    mod = _model(ctx, model, ops, "corr")
+    mod = _model(ctx, model, ops, "corr", shards)
     ctx.log("correspondence: %d ops (%d corpus)" % (len(ops), n_corpus))
     mism, kf_class, spec_viol = [], 0, []
     for i, (o, a, b) in enumerate(zip(ops, impl, mod)):
@@ -279,6 +322,9 @@ def run(ctx):
             branch = o.split(" ")[1]
         ctx.evaluations += 1
         ctx.note_case(o, nontrivial=not (a.startswith("w=err") or a == "bad-op"), kind="%s:%s" % (verb, branch.replace(" ", ",")))
+        if verb == "hist" and a.startswith("h="):
+            for st, ans in zip(o.split(" ")[4].split(","), a[2:].split(",")):
+                ctx.histogram["hist-step:%s:%s" % (st.split(":")[0], "data" if "/" in ans else ans)] += 1
         if a != _strip(b):
             mism.append((i, o, a, b))
         elif verb == "xkey":
@@ -289,12 +335,16 @@ def run(ctx):
                     kf_class += 1        # inside the documented defect class, equal to the model
                 else:
                     spec_viol.append((i, o, a, spec))
-        if len(ctx.samples) < 5 and verb in ("fs", "aes", "xkey") and i % 997 == 0:
+        if len(ctx.samples) < 7 and verb in ("fs", "aes", "xkey", "hist") and i % 997 == 0:
             ctx.samples.append(dict(op=o[:600], impl=a[:600], model=b[:600]))
     ctx.histogram["xkey:inside-" + KF_ID + "-class"] = kf_class
     ctx.extra["correspondence_ops"] = len(ops)
     ctx.extra["correspondence_mismatches"] = len(mism)
-    zero = [k for k in ("fs:w:ok,r:ok", "fs:w:ok,r:auth", "fs:w:ok,r:short", "fs:w:ok,r:unknownTag", "fs:w:entropy",
+    ctx.extra["hist_ops"] = sum(1 for o in ops if o.startswith("hist "))
+    ctx.extra["hist_bad_op"] = sum(1 for o, a in zip(ops, impl) if o.startswith("hist ") and a == "bad-op")
+    if ctx.extra["hist_bad_op"]:
+        ctx.notes.append("%d generated hist lines were not well formed (bad-op on both sides)" % ctx.extra["hist_bad_op"])
+    zero = [k for k in ("hist:handles:1", "hist:handles:2", "hist:handles:3", "hist:handles:6", "fs:w:ok,r:ok", "fs:w:ok,r:auth", "fs:w:ok,r:short", "fs:w:ok,r:unknownTag", "fs:w:entropy",
                         "aes:r:ok", "aes:r:auth", "aes:r:short", "aes:r:unknownTag", "aes:r:io")
             if not ctx.histogram.get(k)]
     if zero:
@@ -307,8 +357,10 @@ def run(ctx):
     concrete_found = False
     if ofails:
         concrete_found = True
-        ctx.violation("impl-vs-spec", "the property fails on the real code (oracle):\n" + "\n".join(ofails[:8]),
-                      lines=["oracle %s seed=%d" % ("quick" if ctx.quick() else "thorough", ctx.seed)],
+        # a failed history of the class `handles` carries its own op line: it is replayed as such
+        hist_lines = [f[f.index(": hist ") + 2:] for f in ofails if f.startswith("FAIL handles ") and ": hist " in f]
+        ctx.violation("impl-vs-spec", "the property fails on the real code (oracle):\n" + "\n".join(f[:700] for f in ofails[:8]),
+                      lines=hist_lines[:3] + ["oracle %s seed=%d" % ("quick" if ctx.quick() else "thorough", ctx.seed)],
                       annotations=["oracle: " + f[:300] for f in ofails[:8]], concrete=True)
     for i, o, a, spec in spec_viol[:3]:
         concrete_found = True
